@@ -12,7 +12,7 @@ from props import ext as extmod
 # node / element renumbering between LoadMesh and assembly (FEASolver::Cuthill, SortNodes, SortElements): model Renumber.v,
 # theorems Properties_C02_renumber.v (+ C07 / C08 / C09 parts in their own files), harness h_cuthill.cpp (props/xcm.py)
 EXTENSIONS = ["xcm", "xload"]
-EXTRA_PROPERTY_FILES = ["C02_renumber", "C02_load"]
+EXTRA_PROPERTY_FILES = ["C02_renumber", "C02_load", "C02_poly"]
 
 LEVEL = "proof"
 COQ_MODULES = ["Marker", "MeshCheck"]
